@@ -190,9 +190,11 @@ func (e *Engine) analyse(fn *ssa.Function, blk *Block) (rep *FuncReport) {
 				if len(cl.Words) < 1 || e.sitesHit[fnm+"|"+cl.Words[0]] {
 					continue
 				}
-				if strings.Contains(cl.Words[0], ">") || !e.siteExists(e.funcs[fnm], cl.Words[0]) {
-					e.emitBroken(st, fmt.Sprintf("%s/%s@%s:%s", fnm, kind, cl.Words[0], cl.Label()), cl, "no such call site in the current source")
+				why := "the call site is never reached on any explored path"
+				if !strings.Contains(cl.Words[0], ">") && !e.siteExists(e.funcs[fnm], cl.Words[0]) {
+					why = "no such call site in the current source"
 				}
+				e.emitBroken(st, fmt.Sprintf("%s/%s@%s:%s", fnm, kind, cl.Words[0], cl.Label()), cl, why)
 			}
 		}
 	}
@@ -388,7 +390,23 @@ func (e *Engine) checkExit(run *Run, ex *Exit, blk *Block) {
 	for _, cl := range blk.All("ensures") {
 		e.obligationClause(st, fr, fmt.Sprintf("%s/ensures:%s", name, cl.Label()), cl, vars)
 	}
+	// vacuity: some normal exit of the function must be reachable under the assumed contracts
+	if len(blk.All("ensures")) > 0 {
+		e.emitCover(st, name+"/cover:return", "a normal return is reachable (assumed contracts are not contradictory)")
+	}
 	e.checkExitLocks(st, fr, blk, false)
+	// functions running under a caller's lock: changes of notify-on-change state must have been broadcast
+	if len(blk.All("holds")) > 0 {
+		goal := True
+		where := ""
+		for k, v := range st.Facts {
+			if strings.HasPrefix(k, "dirty:") {
+				goal = False
+				where = k + " at " + v
+			}
+		}
+		e.emitWith(st, name+"/bcast-after-change:return", "", nil, goal, "guarded state changed without a Broadcast before returning to the lock holder: "+where, e.framePos(fr), []string{"C04", "C05"}, nil)
+	}
 }
 
 // checkExitLocks: unless the contract says otherwise, a function returns with the lockset it started with.
